@@ -205,8 +205,8 @@ def _sim_lu(A):
         if m == 0:
             raise Singular()
         for t, v in enumerate(cand):
-            if t != t0 and m - v <= REL * scale:
-                tiefree = False
+            if t != t0 and m - v <= REL * scale and not exact:
+                tiefree = False     # a near-tie between values that are not exact in binary64
         perm[c], perm[c + t0] = perm[c + t0], perm[c]
         p = perm[c]
         piv = W[p][c]
@@ -361,6 +361,30 @@ def _gen_int(rng, r, n, kind, pool):
     return A
 
 
+def _gen_lu_exact(rng, r, n, kind):
+    """A = P L U with |L| <= 1 dyadic, U upper triangular with power-of-two diagonal: partial pivoting and both
+    triangular solves are exact in binary64, B0 = L inv(L[:r]) is dyadic and often has entries > 1"""
+    lp = [Fr(0), Fr(1), Fr(-1), Fr(1), Fr(-1), Fr(1), Fr(-1), Fr(1, 2), Fr(-1, 2)]
+    for _ in range(100):
+        L = [[(Fr(1) if i == j else (rng.choice(lp) if j < i else Fr(0))) for j in range(r)] for i in range(n)]
+        U = [[(rng.choice([Fr(1), Fr(-1), Fr(2), Fr(-2), Fr(4), Fr(1, 2)]) if i == j else
+               (Fr(rng.randint(-3, 3)) if j > i else Fr(0))) for j in range(r)] for i in range(r)]
+        if 'zero' in kind:
+            for a in rng.sample(range(r, n), rng.randint(1, max(1, (n - r) // 2))):
+                L[a] = [Fr(0)] * r
+        if 'dup' in kind:
+            for _ in range(rng.randint(1, max(1, n // 3))):
+                a, b = rng.randrange(r, n), rng.randrange(n)
+                L[a] = [L[b][j] if j <= min(a, r - 1) else Fr(0) for j in range(r)]
+                if b < r:
+                    L[a] = [L[b][j] for j in range(r)]
+        A = [[sum(L[i][l] * U[l][j] for l in range(r)) for j in range(r)] for i in range(n)]
+        rng.shuffle(A)
+        if _rank_ok(A):
+            return A
+    return _gen_int(rng, r, n, kind, POOL_P2)
+
+
 POOL_INT = [Fr(x) for x in range(-5, 6)]
 POOL_P2 = [Fr(x) for x in (0, 0, 1, -1, 1, -1, 2, -2, 4, -4)] + [Fr(1, 2), Fr(-1, 2)]
 
@@ -500,14 +524,17 @@ def correspondence(R, ctx):
     tries = 0
     while len(items) < 140 * mult and tries < 4000 * mult:
         tries += 1
-        r = rng.randint(1, rmax)
-        n = rng.choice([r + 1, r + 1, r + 2, 2 * r, 2 * r + 1, 3 * r])
+        want = len(items) % 3 != 0          # two cases out of three must swap at least once
+        r = rng.randint(2 if want else 1, rmax)
+        n = rng.choice([2 * r, 2 * r + 1, 3 * r] if want else [r + 1, r + 1, r + 2, 2 * r, 2 * r + 1, 3 * r])
         n = max(n, r + 1)
         kind = rng.choice(['generic', 'generic', 'zero', 'dup', 'dupzero'])
         A = _gen_int(rng, r, n, kind, POOL_INT)
-        e = rng.choice(E_ANY)
+        e = rng.choice(E_ANY[:4] if want else E_ANY)
         I0, B0, tf, ex = _sim_lu(A)
         _, _, need, _, _, _ = _sim_loop(B0, I0, e, 1000, False, False)
+        if want and need == 0:
+            continue
         k = _pick_k(rng, need)
         _, _, sw, conv, safe, _ = _sim_loop(B0, I0, e, k, False, False)
         if not (tf and safe):
@@ -531,18 +558,19 @@ def correspondence(R, ctx):
     tries = 0
     while len(items) < 80 * mult and tries < 30000 * mult:
         tries += 1
-        r = rng.randint(1, 3)
+        want = len(items) % 3 != 0
+        r = rng.randint(2 if want else 1, 4)
         n = rng.choice([r + 1, r + 2, 2 * r, 2 * r + 1, 3 * r])
         n = max(n, r + 1)
         kind = rng.choice(['generic', 'zero', 'dup', 'dupzero'])
-        A = _gen_int(rng, r, n, kind, POOL_P2)
-        e = rng.choice(E_DY + [Fr(2), Fr(4)])
+        A = _gen_lu_exact(rng, r, n, kind) if rng.random() < 0.85 else _gen_int(rng, r, n, kind, POOL_P2)
+        e = rng.choice(E_DY + ([] if want else [Fr(2), Fr(4)]))
         dist['candidates'] += 1
         I0, B0, tf, ex = _sim_lu(A)
         if not ex:
             continue
         _, _, need, _, _, ex2 = _sim_loop(B0, I0, e, 1000, True, True)
-        if not ex2:
+        if not ex2 or (want and need == 0):
             continue
         k = _pick_k(rng, need)
         I1, B1, sw, conv, safe, ex3 = _sim_loop(B0, I0, e, k, True, True)
@@ -550,7 +578,7 @@ def correspondence(R, ctx):
         flat = sorted((abs(x) for row in B0 for x in row), reverse=True)
         has_tie = len(flat) > 1 and flat[0] == flat[1] and flat[0] > e
         thr_tie = any(abs(x) == e for row in B1 for x in row) or any(abs(x) == e for row in B0 for x in row)
-        if not (has_tie or thr_tie or not tf) and rng.random() < 0.8:
+        if not (has_tie or thr_tie or sw > 0) and rng.random() < 0.8:
             continue
         with Recorder() as rec:
             impl = _impl(tn.maxvol, _fA(A), float(e), k)
@@ -561,7 +589,7 @@ def correspondence(R, ctx):
         if rI0 != I0 or any(Fr(float(rB0[a, j])) != B0[a][j] for a in range(n) for j in range(r)):
             continue
         dist['accepted'] += 1
-        dist['with_argmax_tie'] += int(has_tie or not tf)
+        dist['with_argmax_tie'] += int(has_tie)
         dist['with_threshold_tie'] += int(thr_tie)
         dist['swaps'][sw] = dist['swaps'].get(sw, 0) + 1
         rB0q = '(mk_mat %d %d %s)' % (n, r, C.nested([[Fr(float(x)) for x in row] for row in rB0.tolist()], C.qlit))
@@ -709,13 +737,14 @@ def correspondence(R, ctx):
         target = (70 if name == 'f_maxvol' else 60) * mult
         while len(items) < target and tries < 3000 * mult:
             tries += 1
-            r = rng.randint(1, 8 if th else 6)
-            n = max(r + 1, rng.choice([r + 1, r + 2, 2 * r, 3 * r, 5 * r]))
+            want = len(items) % 3 != 0      # two cases out of three must swap at least once
+            r = rng.randint(2 if want else 1, 8 if th else 6)
+            n = max(r + 1, rng.choice([3 * r, 5 * r, 8 * r] if want else [r + 1, r + 2, 2 * r, 3 * r, 5 * r]))
             lc = rng.choice([0, 1, 2, 4, 6, 8])
             kind = rng.choice(['generic', 'generic', 'zero', 'dup', 'dupzero'])
             A = _gen_cond(rng, nprng, r, n, 10.0 ** lc, kind)
             n = A.shape[0]
-            e0 = rng.choice([1.01, 1.05, 1.1, 1.5, 2.0, 1.0 + 10 ** rng.uniform(-2, 0.5)])
+            e0 = rng.choice([1.01, 1.05, 1.1] if want else [1.01, 1.05, 1.1, 1.5, 2.0, 1.0 + 10 ** rng.uniform(-2, 0.5)])
             with Recorder() as rec:
                 probe = _impl(tn.maxvol, A, e0, 10000)
             if probe[0] != 0 or not rec.calls:
@@ -723,6 +752,8 @@ def correspondence(R, ctx):
             rI0, rB0 = rec.calls[0]
             contract = _validate_init(A, rI0, rB0, 10.0 ** lc)
             _, _, need, _, _, _ = _sim_loop(rB0.tolist(), rI0, e0, 10000, None, False)
+            if want and need == 0:
+                continue
             k0 = _pick_k(rng, need) if name == 'f_maxvol' else rng.choice([need + 1, 100, _pick_k(rng, need)])
             I1, B1, sw, conv, _, _ = _sim_loop(rB0.tolist(), rI0, e0, k0, None, False)
             lu = f'(lu_replay {_natl(rI0)} {_fmat(rB0)})'
